@@ -256,7 +256,6 @@ insert_sliced_data_units	(uint8_t **		packet,
 	s = *sliced;
 
 	last_line = 0;
-	*last_du_size = 0;
 
 	for (; s_left > 0; ++s, --s_left) {
 		const unsigned int f2_start = 313;
@@ -638,6 +637,8 @@ vbi_dvb_multiplex_sliced	(uint8_t **		packet,
 		return FALSE;
 	}
 
+	last_du_size = 0;
+
 	err = insert_sliced_data_units (packet, p_left,
 					&last_du_size,
 					sliced, s_left,
@@ -812,8 +813,6 @@ insert_raw_data_units		(uint8_t **		packet,
 	lofp += line;
 
 	first_pixel_position += n_pixels_total - r_left;
-
-	*last_du_size = 0;
 
 	while (r_left > 0) {
 		unsigned int n_pixels;
@@ -1033,6 +1032,8 @@ vbi_dvb_multiplex_raw		(uint8_t **		packet,
 		/* errno = VBI_ERR_NO_RAW_DATA; */
 		return FALSE;
 	}
+
+	last_du_size = 0;
 
 	err = insert_raw_data_units (packet, p_left,
 				     &last_du_size,
@@ -1453,6 +1454,7 @@ generate_pes_packet		(vbi_dvb_mux *		mx,
 	s_begin = s;
 
 	last_line = 0;
+	last_du_size = 0;
 
 	for (;;) {
 		if (s < s_end) {
